@@ -1,7 +1,7 @@
 PROP = dict(
     id='C07', level='exploration',
     pyvc=[],
-    finite=[],
+    finite=['finite.lalr:oal_precedence'],
     bounded='bounded.c07',
     bounded_budget=dict(quick=45, thorough=420),
     assumptions=[],
